@@ -56,9 +56,13 @@ First(seq, P(_), dflt) == IF \E i \in DOMAIN seq : P(seq[i])
 
 ObjWith(ks, f) == JObj(ks, [i \in DOMAIN ks |-> f[ks[i]]])
 
-RECURSIVE Inst(_, _, _)
+RECURSIVE InstL(_, _, _, _)
+(* nesting level lvl: below the second level only the first few candidates of a position are
+   varied (keeps the candidate sets of deep documents small) *)
+Trunc(seq, lvl) == IF lvl >= 2 /\ Len(seq) > 4 THEN SubSeq(seq, 1, 4) ELSE seq
 (* a conforming value of Sc if the candidates contain one *)
-Good(Sc, defs, d) == First(Inst(Sc, defs, d), LAMBDA x : Valid(Sc, x, defs), JNull)
+GoodL(Sc, defs, d, lvl) == First(InstL(Sc, defs, d, lvl), LAMBDA x : Valid(Sc, x, defs), JNull)
+Good(Sc, defs, d) == GoodL(Sc, defs, d, 0)
 
 ScalarCands(Sc, ty) ==
     CASE ty = "string"  -> StrCands(Sc)
@@ -68,20 +72,20 @@ ScalarCands(Sc, ty) ==
       [] ty = "null"    -> << JNull >>
       [] OTHER -> << >>
 
-ObjCands(Sc, defs, d) ==
+ObjCands(Sc, defs, d, lvl) ==
     LET props == IF SHas(Sc, "properties") THEN Sc.properties ELSE << >>
         ks == SetToSeq(DOMAIN props)
         req == ReqSet(Sc)
-        good == [k \in DOMAIN props |-> Good(props[k], defs, d)]
+        good == [k \in DOMAIN props |-> GoodL(props[k], defs, d, lvl + 1)]
         all == ObjWith(ks, good)
         rks == SelectSeq(ks, LAMBDA k : k \in req)
         onlyReq == ObjWith(rks, good)
         vary == Flat([i \in DOMAIN ks |->
-                   LET c == Inst(props[ks[i]], defs, d) IN
+                   LET c == Trunc(InstL(props[ks[i]], defs, d, lvl + 1), lvl + 1) IN
                    [j \in DOMAIN c |-> ObjWith(ks, [good EXCEPT ![ks[i]] = c[j]])]])
         drop == [i \in DOMAIN ks |-> ObjWith(SelectSeq(ks, LAMBDA k : k # ks[i]), good)]
         addl == IF SHas(Sc, "additionalProperties") /\ ~SHas(Sc.additionalProperties, "bool")
-                THEN LET c == Inst(Sc.additionalProperties, defs, d) IN
+                THEN LET c == Trunc(InstL(Sc.additionalProperties, defs, d, lvl + 1), lvl + 1) IN
                      [j \in DOMAIN c |-> ObjWith(ks \o <<"zz">>, good @@ ("zz" :> c[j]))]
                      \o (IF Len(c) > 1 THEN << ObjWith(ks \o <<"zy", "zz">>,
                                                       good @@ ("zy" :> c[1]) @@ ("zz" :> c[2])) >> ELSE << >>)
@@ -89,36 +93,38 @@ ObjCands(Sc, defs, d) ==
                         ObjWith(ks \o <<"zz">>, good @@ ("zz" :> JStr(<<"q">>))) >>
     IN << all, onlyReq >> \o vary \o drop \o addl
 
-ArrCands(Sc, defs, d) ==
+ArrCands(Sc, defs, d, lvl) ==
     IF SHas(Sc, "itemsList") THEN
         LET n == Len(Sc.itemsList)
-            good == [i \in 1 .. n |-> Good(Sc.itemsList[i], defs, d)]
+            good == [i \in 1 .. n |-> GoodL(Sc.itemsList[i], defs, d, lvl + 1)]
             vary == Flat([i \in 1 .. n |->
-                      LET c == Inst(Sc.itemsList[i], defs, d) IN
+                      LET c == Trunc(InstL(Sc.itemsList[i], defs, d, lvl + 1), lvl + 1) IN
                       [j \in DOMAIN c |-> JArr([good EXCEPT ![i] = c[j]])]])
         IN << JArr(good), JArr(good \o <<JInt(1)>>), JArr(good \o <<JNull>>), JArr(SubSeq(good, 1, n - 1)),
               JArr(<< >>) >> \o vary
     ELSE IF SHas(Sc, "items") THEN
-        LET c == Inst(Sc.items, defs, d)
-            g == Good(Sc.items, defs, d)
+        LET c == Trunc(InstL(Sc.items, defs, d, lvl + 1), lvl + 1)
+            g == GoodL(Sc.items, defs, d, lvl + 1)
             g2 == First(c, LAMBDA x : Valid(Sc.items, x, defs) /\ ~JEq(x, g), g)
         IN << JArr(<< >>), JArr(<<g>>), JArr(<<g, g2>>), JArr(<<g, g>>), JArr(<<g, g2, g>>), JArr(<<g2, g, g2, g>>) >>
            \o [j \in DOMAIN c |-> JArr(<<g, c[j]>>)]
     ELSE << JArr(<< >>), JArr(<<JInt(1), JStr(<<"a">>)>>) >>
 
-Inst(Sc, defs, d) ==
+InstL(Sc, defs, d, lvl) ==
     IF SHas(Sc, "bool") THEN << JNull, JInt(1) >>
-    ELSE IF SHas(Sc, "ref") THEN (IF d = 0 THEN << >> ELSE Inst(defs[Sc.ref], defs, d - 1))
+    ELSE IF SHas(Sc, "ref") THEN (IF d = 0 THEN << >> ELSE InstL(defs[Sc.ref], defs, d - 1, lvl))
     ELSE
       (IF SHas(Sc, "enum") THEN Sc.enum \o << JStr(<<"n", "o", "p", "e">>), JInt(77) >> ELSE << >>)
-      \o (IF SHas(Sc, "oneOf") THEN Flat([i \in DOMAIN Sc.oneOf |-> Inst(Sc.oneOf[i], defs, d)]) ELSE << >>)
-      \o (IF SHas(Sc, "anyOf") THEN Flat([i \in DOMAIN Sc.anyOf |-> Inst(Sc.anyOf[i], defs, d)]) ELSE << >>)
-      \o (IF SHas(Sc, "allOf") THEN Flat([i \in DOMAIN Sc.allOf |-> Inst(Sc.allOf[i], defs, d)]) ELSE << >>)
+      \o (IF SHas(Sc, "oneOf") THEN Flat([i \in DOMAIN Sc.oneOf |-> InstL(Sc.oneOf[i], defs, d, lvl)]) ELSE << >>)
+      \o (IF SHas(Sc, "anyOf") THEN Flat([i \in DOMAIN Sc.anyOf |-> InstL(Sc.anyOf[i], defs, d, lvl)]) ELSE << >>)
+      \o (IF SHas(Sc, "allOf") THEN Flat([i \in DOMAIN Sc.allOf |-> InstL(Sc.allOf[i], defs, d, lvl)]) ELSE << >>)
       \o (IF SHas(Sc, "enum") THEN << >>
           ELSE Flat([i \in DOMAIN TypeSeq(Sc) |-> ScalarCands(Sc, TypeSeq(Sc)[i])]))
       \o (IF "object" \in Range(TypeSeq(Sc)) \/ (Len(TypeSeq(Sc)) = 0 /\ (SHas(Sc, "properties") \/ SHas(Sc, "additionalProperties")))
-          THEN ObjCands(Sc, defs, d) ELSE << >>)
-      \o (IF "array" \in Range(TypeSeq(Sc)) THEN ArrCands(Sc, defs, d) ELSE << >>)
+          THEN ObjCands(Sc, defs, d, lvl) ELSE << >>)
+      \o (IF "array" \in Range(TypeSeq(Sc)) THEN ArrCands(Sc, defs, d, lvl) ELSE << >>)
+
+Inst(Sc, defs, d) == InstL(Sc, defs, d, 0)
 
 (* candidates plus wrong-type values *)
 Candidates(Sc, defs, d) == Inst(Sc, defs, d) \o WrongTypes
